@@ -2,6 +2,7 @@
 PROPERTY_GROUPS = {
     'C02': ['rep'],
     'C14': ['events'],
+    'C20': ['bufreader'],
 }
 
 COMMON_ASSUMPTIONS = [
